@@ -64,7 +64,7 @@ def run(chk):
             chk.oracle_fail('comments-vs-scan', 'file', t_, got_[:8], sc_i[t_][:8], 'File::comments is not the list of comment tokens of the source (offset, text, order, each once)')
     rng = random.Random(chk.seed)
     chk.rule = ('scan mode (hook H1). Stream pairs: every ordered pair of the %d representative tokens x 6 separators (exhaustive); '
-                'stream literal-forms: one literal for every branch of the literal productions alone, beside 18 neighbours x 3 separators, and in pairs; stream random: token sequences of 3-12 tokens with random separators. A case is non-trivial when the reference lexer '
+                'stream comment-shapes: every text over {/ * newline c} to length 6 (7 thorough) holding a comment opener, between two tokens and at the end of input; stream literal-forms: one literal for every branch of the literal productions alone, beside 18 neighbours x 3 separators, and in pairs; stream random: token sequences of 3-12 tokens with random separators. A case is non-trivial when the reference lexer '
                 'accepts it (so it is judged by the oracle) and it has >= 2 tokens; distinct by source text.' % len(REPR))
     cases = []
     for (sn, sep) in SEPS:
@@ -110,6 +110,20 @@ def run(chk):
     judged4 = judge(chk, 'literal-forms', lc, a4, sig_pair)
     chk.count('literal-forms', lc, [s for (m, s) in lc if gospec.tokens(s, insert_semicolons=False)])
     chk.extra['literal_forms_judged_by_oracle'] = judged4
+    # comment shapes, exhaustively: every text over {/ * newline c} up to length 6 (7 thorough) between two tokens
+    # (how a general comment opens, closes, nests stars and slashes, spans lines, or runs into the end of input)
+    import itertools
+    cc = []
+    for n_ in range(2, (6 if chk.tier == 'quick' else 7) + 1):
+        for w_ in itertools.product(['/', '*', '\n', 'c'], repeat=n_):
+            w_ = ''.join(w_)
+            if '/*' not in w_ and '//' not in w_: continue
+            cc.append(('scan', 'x ' + w_ + ' y')); cc.append(('scan', 'x' + w_))
+    cc = streams.dedup(cc)
+    a5, b5 = run_both(chk, 'comment-shapes', cc)
+    judged5 = judge(chk, 'comment-shapes', cc, a5, sig_pair)
+    chk.count('comment-shapes', cc, [s for (m, s) in cc if gospec.tokens(s, insert_semicolons=False)])
+    chk.extra['comment_shapes_judged_by_oracle'] = judged5
     # snippets of real Go in the corpus
     sn = [('scan', s) for (m, s) in streams.snippet_cases()]
     sn = streams.dedup(sn)
@@ -118,5 +132,5 @@ def run(chk):
     chk.count('snippets', sn, [s for (m, s) in sn if gospec.tokens(s, insert_semicolons=False)])
     for (m, s), l in list(zip(cases, a))[1000:1003] + list(zip(rc, a2))[:2]:
         chk.sample({'mode': m, 'input': s, 'impl': l[:300]})
-    chk.programs = len(cases) + len(rc) + len(sn) + len(lc)
+    chk.programs = len(cases) + len(rc) + len(sn) + len(lc) + len(cc)
     chk.disagreements_checked = chk.programs
